@@ -15,6 +15,7 @@ from .linform import Lin, lin_of, NonLinear
 
 MAX_CASES = 3000
 MAX_DEPTH = 14
+MAX_CROSS = 6          # unfoldings of lines of other forms per branch
 
 
 class Con:
@@ -76,6 +77,7 @@ class Prover:
         self.zero = zero_atoms
         self.cases = 0
         self.fresh = 0
+        self.ub = {}                  # optional: atom -> set of frozen linear upper bounds (signs.compute_ub)
         self.defs_all = None          # optional: all definitions of the year (incl. yes/no lines) for guard unfolding
 
     # ---- turning Lin (with structured terms) into plain linear combos + side conditions
@@ -122,7 +124,7 @@ class Prover:
         self.names = {}
         self.order = []
         self.form_prefix = owner_atom.rsplit('.', 1)[0] if owner_atom else None
-        st = {'todo': [], 'active': set(), 'unfolded': {owner_atom} if owner_atom else set()}
+        st = {'todo': [], 'active': set(), 'unfolded': {owner_atom} if owner_atom else set(), 'cross': 0}
         cons = []
         for g in guards:
             c = self.guard_con(g[0], g[1], st)
@@ -172,13 +174,23 @@ class Prover:
                 continue
             if v.startswith('i:') or v in self.nn:
                 out.append(Con({v: 1}, 0))
+            # symbolic upper bounds of the line common to all its value paths (min(a, b) <= a ...): usable when the
+            # bound is itself a non-negative combination of plain atoms (a blank path leaves the line at 0)
+            for f in sorted(self.ub.get(v, ()), key=repr)[:4]:
+                const, terms = f
+                if const < 0 or not terms:
+                    continue
+                if all(t[0] == 'a' and c > 0 and (t[1].startswith('i:') or t[1] in self.nn) for t, c in terms):
+                    coeffs = {t[1]: c for t, c in terms}
+                    coeffs[v] = coeffs.get(v, 0) - 1
+                    out.append(Con(coeffs, const))
         return out
 
     def same_form(self, atom):
         return self.form_prefix is not None and atom.rsplit('.', 1)[0] == self.form_prefix
 
     def branch(self, st):
-        return {'todo': list(st['todo']), 'active': set(st['active']), 'unfolded': set(st['unfolded'])}
+        return {'todo': list(st['todo']), 'active': set(st['active']), 'unfolded': set(st['unfolded']), 'cross': st['cross']}
 
     def search(self, cons, st, depth):
         """True if every way of resolving the pending disjunctions gives an infeasible system"""
@@ -207,9 +219,16 @@ class Prover:
             if v.startswith('v:') and v in self.defs and v not in st['unfolded'] and v not in cands and self.same_form(v):
                 cands.append(v)
                 self.order.append(v)
+        if not cands and st['cross'] < MAX_CROSS:
+            # nothing left in the goal's own form: follow the amounts carried from other forms
+            for v in sorted(vars_):
+                if v.startswith('v:') and v in self.defs and v not in st['unfolded'] and ':*' not in v:
+                    cands.append(v)
         for v in cands:
             st2 = self.branch(st)
             st2['unfolded'].add(v)
+            if not self.same_form(v):
+                st2['cross'] += 1
             alts = self.line_cases(v, st2)
             if alts is None:
                 st = st2
